@@ -910,7 +910,12 @@ func genUpsert(r *Rng, sc *ATSchema, existing [][]ATVal, taken map[string]bool) 
 
 func genStmt(r *Rng, sc *ATSchema, taken map[string]bool, o ATGenOpts) *ATStmt {
 	if o.Upserts && r.Chance(20) {
-		return genUpsert(r, sc, o.Existing, taken)
+		st := genUpsert(r, sc, o.Existing, taken)
+		if o.PKUpdates && (len(st.Rows)+len(st.Assign)+len(sc.Cols))%2 == 0 {
+			// ON DUPLICATE KEY UPDATE names a key column (id = VALUES(id)): refused by the proxy before it runs
+			st.Assign = append(st.Assign, ATUpAssign{Col: sc.PK[0]})
+		}
+		return st
 	}
 	var st *ATStmt
 	switch r.Intn(10) {
